@@ -44,7 +44,6 @@ Definition boot (im : image) : dstate :=
 Definition s_meta_tmp : bytes := [100;105;115;107;46;109;101;116;97;46;116;109;112]%N.                  (* disk.meta.tmp *)
 Definition s_meta_renamed : bytes := [100;105;115;107;46;109;101;116;97;46;114;101;110;97;109;101;100]%N. (* disk.meta.renamed *)
 Definition s_db_removed : bytes := [100;105;115;107;46;100;98;46;114;101;109;111;118;101;100]%N.          (* disk.db.removed *)
-Definition s_clear_closed : bytes := [100;105;115;107;46;99;108;101;97;114;46;99;108;111;115;101;100]%N.  (* disk.clear.closed *)
 
 Definition s_create_cleaned : bytes := [100;105;115;107;46;99;114;101;97;116;101;46;99;108;101;97;110;101;100]%N.  (* disk.create.cleaned *)
 Definition s_delete_undefined : bytes := [100;105;115;107;46;100;101;108;101;116;101;46;117;110;100;101;102;105;110;101;100]%N.  (* disk.delete.undefined *)
@@ -88,12 +87,6 @@ Definition dstep (d : dstate) (c : call) : dstate * bresp * list (bytes * image)
         let d1 := mkDState mem' (ds_meta d) (ds_orphans d) in
         (mkDState mem' (ainsert name tf (ds_meta d)) (ds_orphans d), rsp,
          [(s_meta_tmp, image_of d1); (s_meta_renamed, set_meta (image_of d1) name tf)])
-      else (d, rsp, [])
-  | BDropRowRange name true _ =>
-      if N.eqb (br_code rsp) cOK then
-        (* Clear: close the DB; RemoveAll(dir); open a fresh DB *)
-        (mkDState mem' (ds_meta d) (ds_orphans d), rsp,
-         [(s_clear_closed, im0); (s_db_removed, set_dir im0 name None)])
       else (d, rsp, [])
   | _ => (mkDState mem' (ds_meta d) (ds_orphans d), rsp, [])
   end.
